@@ -100,7 +100,13 @@ pub fn run_obs(op: &str, step: &Value, regs: &Regs, ctx: &mut Ctx, keys: &crate:
             }
             // hex() is an annotated dump: its hex digits, in order, are the encoding
             let digits: String = hexs.lines().map(|l| l.split('#').next().unwrap_or("")).collect::<String>().chars().filter(|c| c.is_ascii_hexdigit()).collect();
-            if digits != hx(&e.tagged_cbor().to_cbor_data()) {
+            // (a text string with line breaks continues its comment on the following lines: such dumps are
+            // compared through the plain form only)
+            let every_line_commented = hexs.lines().all(|l| l.contains('#'));
+            if e.hex_opt(false, None) != hx(&e.tagged_cbor().to_cbor_data()) {
+                return Err("#variant:format# hex_opt(false) is not the encoding".into());
+            }
+            if every_line_commented && digits != hx(&e.tagged_cbor().to_cbor_data()) {
                 return Err("#variant:format# the hex digits of hex() are not the encoding".into());
             }
             let back = Envelope::from_ur_string(&ur).map_err(|x| format!("UR does not parse back: {}", x))?;
@@ -118,7 +124,17 @@ pub fn run_obs(op: &str, step: &Value, regs: &Regs, ctx: &mut Ctx, keys: &crate:
         "obs_tree_format" => {
             let e = reg(regs, a(0))?;
             let hide = a(1).as_bool().ok_or("hide")?;
-            let text = if var % 2 == 0 { e.tree_format(hide) } else { bc_envelope::with_format_context!(|c| e.tree_format_opt(hide, Some(c))) };
+            let mut target = std::collections::HashSet::new();
+            for d in a(2).as_array().cloned().unwrap_or_default() {
+                target.insert(Digest::from_data(ctx.digest(&d).map_err(|e| e.0)?));
+            }
+            let text = if target.is_empty() {
+                if var % 2 == 0 { e.tree_format(hide) } else { bc_envelope::with_format_context!(|c| e.tree_format_opt(hide, Some(c))) }
+            } else if var % 2 == 0 {
+                e.tree_format_with_target(hide, &target)
+            } else {
+                bc_envelope::with_format_context!(|c| e.tree_format_with_target_opt(hide, &target, Some(c)))
+            };
             json!({"hide": hide, "lines": text.split('\n').collect::<Vec<_>>()})
         }
         "obs_digests" => {
@@ -755,7 +771,15 @@ pub fn compare_obs(op: &str, want: &Value, got: &Value, ctx: &mut Ctx, natural_o
         }
         "obs_tree_format" => {
             let mut exp = vec![];
-            flatten_lines(want, ctx, &mut exp)?;
+            // <<"hl", walk, <<"set", digests>>>>: the lines of these elements carry a star
+            let (walk, stars): (&Value, Option<Vec<[u8; 32]>>) = if tag_of(want) == "hl" {
+                let mut v = vec![];
+                for d in want[2][1].as_array().ok_or("stars")? {
+                    v.push(ctx.digest(d).map_err(|e| e.0)?);
+                }
+                (&want[1], Some(v))
+            } else { (want, None) };
+            flatten_lines(walk, ctx, &mut exp)?;
             let hide = got["hide"].as_bool().unwrap_or(false);
             let lines = got["lines"].as_array().cloned().unwrap_or_default();
             if lines.len() != exp.len() {
@@ -768,6 +792,14 @@ pub fn compare_obs(op: &str, want: &Value, got: &Value, ctx: &mut Ctx, natural_o
                     return Err(format!("line {}: indentation {} for level {}: {:?}", i + 1, indent, level, line));
                 }
                 let mut rest = line.trim_start_matches(' ');
+                let starred = rest.starts_with("* ");
+                if starred {
+                    rest = &rest[2..];
+                }
+                let want_star = stars.as_ref().map(|s| s.contains(d)).unwrap_or(false);
+                if starred != want_star {
+                    return Err(format!("#highlight# line {}: {} but the specification says {}: {:?}", i + 1, if starred { "highlighted" } else { "not highlighted" }, want_star, line));
+                }
                 if !hide {
                     let id = hx(&d[..4]);
                     match rest.strip_prefix(&id) {
